@@ -32,6 +32,9 @@ def mk_symbol(rng, kind, name, p, q):
         s['kw'] = {'V_ref': v, 'P_ref': rng.choice(VALS)}
     elif kind == 'Switch':
         s['kw'] = {'state': rng.choice(['OPEN', 'CLOSED'])}
+        # operated after it was constructed: the intended state is the state it was left in
+        if rng.random() < 0.6:
+            s['after'] = [rng.choice(['open', 'close', 'toggle']) for _ in range(rng.randint(1, 3))]
     elif kind == 'LabeledLine':
         s['kw'] = {}
     elif kind in ('VoltageSource',):
@@ -107,6 +110,14 @@ def random_program(rng, kinds=None, n_sources=None, max_cells=3, with_ground=Non
     return {'unit': rng.choice([2, 3, 7]), 'symbols': symbols}
 
 
+def switch_state(s):
+    """the state a switch symbol is left in: constructed state, then open / close / toggle in order"""
+    st = s['kw']['state']
+    for op in s.get('after', []):
+        st = {'open': 'OPEN', 'close': 'CLOSED', 'toggle': 'CLOSED' if st == 'OPEN' else 'OPEN'}[op]
+    return st
+
+
 # ------------------------------------------------------------------ live drawing
 def build(program, point_map=None):
     """-> (Schematic, list of live elements in program order)"""
@@ -131,6 +142,8 @@ def build(program, point_map=None):
             if s['cls'].endswith('Source'):
                 kw['reverse'] = s['reverse']
             e = cls(name=s['name'], **kw).endpoints(pm(s['p']), pm(s['q']))
+            for op in s.get('after', []):
+                getattr(e, op)()
         d.add(e)
         live.append(e)
     return d, live
@@ -196,7 +209,7 @@ def intended(program):
         elif c == 'Lamp':
             comps.append(('lamp', s['name'], (a, b), {'P': kw['P_ref'], 'V_ref': kw['V_ref']}))
         elif c == 'Switch':
-            comps.append(('resistor', s['name'], (a, b), {'R': math.inf if kw['state'] == 'OPEN' else 1e-12}))
+            comps.append(('resistor', s['name'], (a, b), {'R': math.inf if switch_state(s) == 'OPEN' else 1e-12}))
         elif c == 'LabeledLine':
             comps.append(('short_circuit', s['name'], (a, b), {}))
         elif c == 'VoltageSource':
